@@ -594,6 +594,25 @@ def tree_digest(root):
     return out
 
 
+def reap_scratch(d):
+    """kill processes left behind by a (killed) build below our own scratch directory d
+    (multiprocessing fork servers live in their own session)"""
+    d = os.path.realpath(d)
+    for pid in os.listdir("/proc"):
+        if not pid.isdigit() or int(pid) == os.getpid():
+            continue
+        try:
+            cwd = os.path.realpath(os.readlink("/proc/%s/cwd" % pid))
+            cmd = open("/proc/%s/cmdline" % pid, "rb").read().decode(errors="replace")
+        except OSError:
+            continue
+        if cwd.startswith(d + "/") or cwd == d or (d + "'") in cmd or (d + "/") in cmd:
+            try:
+                os.kill(int(pid), 9)
+            except OSError:
+                pass
+
+
 def run_watched(cmd, cwd, env, outfile, watch, stall, cap):
     """run cmd; a run counts as hanging when none of the watched files (and the
     output file) grew for `stall` seconds, or after `cap` seconds. Returns (rc|None, hang)"""
@@ -656,6 +675,7 @@ def run_build(desc, args, durations, failing, timeout, extra_env=None, keep_dir=
         os.unlink(log)
         return res
     finally:
+        reap_scratch(d)
         if not keep_dir:
             shutil.rmtree(d, ignore_errors=True)
 
@@ -906,7 +926,7 @@ def run_builds(ctx):
     logdir = core.scratch_dir("c06log")
     cases, meta = [], []
     try:
-        nproj = ctx.n(6, 60)
+        nproj = ctx.n(6, 30)
         fams = []
         for i in range(nproj):
             feats = {"sandbox": i % 3 == 0, "variants": rng.random() < 0.6, "checkout": rng.random() < 0.7,
@@ -1019,6 +1039,7 @@ def run_plain_bob(src, args, timeout, env=None, patch=None):
                                outf, [], timeout, 20 * timeout)
         return {"rc": rc, "out": open(outf, errors="replace").read()[-4000:], "hang": hang}
     finally:
+        reap_scratch(d)
         shutil.rmtree(d, ignore_errors=True)
 
 
